@@ -176,6 +176,21 @@ func runScenario(ctx *hx.Ctx, w *crashsim.World, scn *crashsim.Scenario, source 
 			report(f.Class, f.Summary, res.K, f.Found)
 		}
 	}
+	// (iv) the same cut with the REAL syncLogDB at start (cmd/thor's test binary): the tables must come back to the canonical chain's
+	if rb := resyncBin(ctx); rb != nil {
+		outs, err := run.EvalResyncs(rb)
+		if err != nil {
+			report("resync-hook-run", "the start-up re-sync hook run did not complete on this tree: "+err.Error()+"; theorem resync_after_log_commit is no longer tied to the code", -1, false)
+		}
+		for _, o := range outs {
+			if o.Ran {
+				ctx.Cov.Count("resync:real-syncLogDB-after-log-commit-cut")
+			}
+			for _, f := range o.Findings {
+				report(f.Class, f.Summary, o.K, f.Found)
+			}
+		}
+	}
 	ctx.Cov.Add("imports-changing-the-log-tables", logImports)
 	ctx.Cov.Add("log-cuts-evaluated", len(jobs))
 	canon, _ := json.Marshal(scn)
@@ -185,6 +200,30 @@ func runScenario(ctx *hx.Ctx, w *crashsim.World, scn *crashsim.Scenario, source 
 	ctx.Cov.Add("cuts-evaluated", len(cuts))
 	ctx.Cov.Add("imports", len(run.Deliveries))
 	ctx.Cov.Bucket("writes-per-chain", run.Total)
+}
+
+var theResyncBin *crashsim.ResyncBin
+var resyncBinTried bool
+
+// resyncBin builds cmd/thor's test binary (hook verif_hooks_crashlog_test.go) once per run.
+func resyncBin(ctx *hx.Ctx) *crashsim.ResyncBin {
+	if !resyncBinTried {
+		resyncBinTried = true
+		dir := filepath.Join("/verif", "out", "C13")
+		if ctx.Out != "" {
+			dir = filepath.Dir(ctx.Out)
+		} else if v := os.Getenv("VERIF_DIR"); v != "" {
+			dir = filepath.Join(v, "out", "C13")
+		}
+		rb := crashsim.BuildResyncBin(dir)
+		if rb.BuildErr != "" {
+			ctx.Violation("resync-hook-build", "cmd/thor's test binary with the crash-log hook does not build on this tree (`go test -c -tags verif ./cmd/thor`): "+rb.BuildErr+
+				"; the start-up re-sync (theorem resync_after_log_commit) is no longer tied to the code", map[string]any{"how": "go test -c -tags verif ./cmd/thor"}, false)
+			return nil
+		}
+		theResyncBin = rb
+	}
+	return theResyncBin
 }
 
 func kindsOfRendered(s string) string {
